@@ -19,8 +19,8 @@ STUBS = ["operation codes are symbolic integers concretised by forking (every hi
          "numeric arguments are fixed valid values so that refusals are caused by the mode alone",
          "Waveform.modulation_buffers replaced by the constant (rise_time//2, rise_time//2): only timing values depend on it"]
 FLOAT_MODE = "no symbolic floats"
-BOUNDS = {"quick": dict(history_length=3, devices=["virt (physical-like, EOM, DMM, SLM)", "MockDevice (reusable, XY)"], alphabet=24),
-          "thorough": dict(history_length=4, devices=["virt", "MockDevice", "DigitalAnalogDevice"], alphabet=24)}
+BOUNDS = {"quick": dict(history_length=3, devices=["virt (physical-like, EOM, DMM, SLM)", "MockDevice (reusable, XY)"], alphabet=27),
+          "thorough": dict(history_length=4, devices=["virt", "MockDevice", "DigitalAnalogDevice"], alphabet=27)}
 OUTSIDE = ["numeric refusals", "delay/enable_eom on a local channel without target (unspecified)",
            "SLM/DMM interplay beyond the asserted cases (unspecified)", "parametrized-mode acceptance other than inspection/measure/EOM gating/name reuse"]
 
@@ -36,11 +36,13 @@ def setup_concrete():
 DEV = {
     "virt": dict(glob="ryd_glob", loc="ryd_loc", other="ram_loc", mw=None, reusable=False, eom=True, dmm=True, slm=True),
     "mock": dict(glob="rydberg_global", loc="rydberg_local", other="raman_local", mw="mw_global", reusable=True, eom=False, dmm=True, slm=True),
+    "virt_reuse": dict(glob="ryd_glob", loc="ryd_loc", other="ram_loc", mw=None, reusable=True, eom=True, dmm=True, slm=True),
     "digital": dict(glob="rydberg_global", loc="rydberg_local", other="raman_local", mw=None, reusable=False, eom=False, dmm=True, slm=True),
 }
 
 OPS = ["D_g", "D_g2", "D_gname", "D_l", "D_mw", "DMAP", "SLM", "ADD_g", "ADD_l", "ADD_mw", "TGT_l", "DLY_g",
-       "EOM_on", "EOM_p", "EOM_off", "MEAS", "MEAS_xy", "VAR", "INSPECT", "ALIGN", "SHIFT", "ADD_g2", "DMAP2", "D_l2", "VAR_EOM"]
+       "EOM_on", "EOM_p", "EOM_off", "MEAS", "MEAS_xy", "VAR", "INSPECT", "ALIGN", "SHIFT", "ADD_g2", "DMAP2", "D_l2", "VAR_EOM",
+       "EOM_on2", "EOM_off2"]
 
 
 class Model:
@@ -140,12 +142,17 @@ class Model:
             if r and not self.names["g"]["target"]:
                 return None
             return r
-        if op == "EOM_on":
-            if "g" not in self.names or self.measured:
+        if op in ("EOM_on", "EOM_on2"):
+            n = "g" if op == "EOM_on" else "g2"
+            if n not in self.names or self.measured:
                 return False
-            if not d["eom"] or self.names["g"]["kind"] != "glob":
+            if not d["eom"] or self.names[n]["kind"] != "glob":
                 return False
-            return not self.names["g"]["eom"]
+            return not self.names[n]["eom"]
+        if op == "EOM_off2":
+            if "g2" not in self.names or self.measured:
+                return False
+            return bool(self.names["g2"]["eom"])
         if op == "EOM_p":
             if "g" not in self.names or self.measured:
                 return False
@@ -232,6 +239,10 @@ class Model:
             self.names["g"]["eom"] = True
         elif op == "EOM_off":
             self.names["g"]["eom"] = False
+        elif op == "EOM_on2":
+            self.names["g2"]["eom"] = True
+        elif op == "EOM_off2":
+            self.names["g2"]["eom"] = False
         elif op in ("MEAS", "MEAS_xy"):
             self.measured = True
         elif op in ("VAR", "VAR_EOM"):
@@ -274,6 +285,10 @@ def do_op(seq, op, dev, st):
         seq.delay(16, "g")
     elif op == "EOM_on":
         seq.enable_eom_mode("g", 1.0, 0.0)
+    elif op == "EOM_on2":
+        seq.enable_eom_mode("g2", 1.0, 0.0)
+    elif op == "EOM_off2":
+        seq.disable_eom_mode("g2")
     elif op == "EOM_p":
         seq.add_eom_pulse("g", 16, 0.0)
     elif op == "EOM_off":
@@ -376,6 +391,11 @@ def kernels(tier):
                        ["D_g", "SLM"], ["SLM", "D_g"], ["D_g", "DMAP", "VAR"]):
             for first in range(len(OPS)):
                 ks.append(("history", dict(device=dev, k=2 if quick else 3, first=first, prefix=prefix)))
+    # two EOM-capable channels (reusable device): the mode of one never depends on the other, parametrized or not
+    for prefix in (["D_g", "D_g2", "EOM_on"], ["D_g", "D_g2", "VAR", "EOM_on"], ["D_g", "D_g2", "EOM_on", "VAR_EOM", "EOM_on2"],
+                   ["D_g", "D_g2", "VAR", "EOM_on2", "EOM_on", "EOM_off2"]):
+        for first in range(len(OPS)):
+            ks.append(("history", dict(device="virt_reuse", k=1 if quick else 2, first=first, prefix=prefix)))
     return ks
 
 
